@@ -390,11 +390,8 @@ func TestVerifC18CollectionGetByPDH(t *testing.T) {
 		winner := ""
 		if res.err == nil {
 			got := res.coll.ManifestText
-			// (a) what is handed out hashes to the requested value
-			if p := ref.PDH(got); p != reqBase {
-				t.Fatalf("C18 violated: CollectionGet(%q) succeeded but the returned manifest has reference PDH %s\nreturned: %q\n%s", req, p, got, describe())
-			}
-			// (b) it is what one backend sent, with only +A -> +R<id>-
+			// Who produced it? The local cluster's own answer is not "fetched
+			// from a remote cluster": the property only wants it unchanged.
 			var diffs []string
 			if localAns.is200() {
 				if got == localAns.text {
@@ -403,6 +400,11 @@ func TestVerifC18CollectionGetByPDH(t *testing.T) {
 					diffs = append(diffs, "vs local: "+fedgen.DiffTokens(got, localAns.text))
 				}
 			}
+			// (a) what is handed out from a remote hashes to the requested value
+			if p := ref.PDH(got); p != reqBase && winner != "local" {
+				t.Fatalf("C18 violated: CollectionGet(%q) succeeded but the returned manifest has reference PDH %s\nreturned: %q\n%s", req, p, got, describe())
+			}
+			// (b) it is what one backend sent, with only +A -> +R<id>-
 			if winner == "" {
 				for _, st := range stubs {
 					if !st.ans.is200() {
@@ -516,8 +518,11 @@ func TestVerifC18CollectionGetByPDH(t *testing.T) {
 		for _, st := range stubs {
 			kinds = append(kinds, st.id+st.ans.label()+st.ans.detail)
 		}
+		for i := range labels {
+			labels[i] = "fed:" + labels[i]
+		}
 		stats.Case(stats.FP(honest, req, localAns.label(), kinds, releasedOrder, mode), nontrivial, labels...)
-		for _, l := range []string{"outcome:success", "outcome:error-5xx", "valid-and-invalid-remotes-compete"} {
+		for _, l := range []string{"fed:outcome:success", "fed:outcome:error-5xx", "fed:valid-and-invalid-remotes-compete"} {
 			for _, have := range labels {
 				if have == l && stats.WantSample(l) {
 					var rs []string
@@ -610,6 +615,11 @@ func TestVerifC18RewriteOnly(t *testing.T) {
 		}
 		if strings.Contains(strings.Replace(want, "+R"+remoteID+"-", "", -1), "+A") {
 			labels = append(labels, "+A-outside-locators-preserved")
+		}
+		for i := range labels {
+			if labels[i] != "rewrite" {
+				labels[i] = "rewrite:" + labels[i]
+			}
 		}
 		stats.Case(stats.FP("rw", text, remoteID, which), ns > 0, labels...)
 		if stats.WantSample("rewrite") {
